@@ -30,6 +30,7 @@ func c02(c *eng.Ctx, r *eng.Report) {
 		"R2.10 every dispatch on the kind of a split RLP item in the trie decoder handles Byte, String and List or ends in an error. " +
 		"R2.12 the root a trie reports is the hash of its root node: every value Trie.Hash returns, and every root Trie.Commit returns with a nil error, comes out of hashRoot (which yields the empty-set root for an empty trie) — never a constant or a zero value; " +
 		"R2.13 the node store's read path has no length floor: whether a stored blob is treated as present depends only on the lookup error and on its being nil — the root node is stored under its hash however short its encoding (the force flag of R2.4), so a test like len(enc) < 32 makes small tries unreadable after a reload; " +
+		"R2.17 the conversions between live and stored nodes visit every child: in simplifyNode and expandNode the recursive call on a branch child depends on nothing but the child being non-nil (and the loop bound) — a cascade restricted to one node kind leaves a live *fullNode embedded in a branch (two keys differing in their last nibble under a common branch) in the write-back cache, and Commit panics with `unknown node type` while holding the database lock; " +
 		"R2.16 a trie holds nothing beside the nodes that are hashed: the structs Trie, fullNode, shortNode and nodeFlag have exactly the reviewed fields (root, db, originalRoot and the cache generation; Children/Key/Val and the flags) — any further field is state the root does not commit to (a per-node child counter that the disk decoder fills differently from insert; a lookup memo that one of the update paths forgets to invalidate) and must be reviewed before the claim stands; " +
 		"R2.15 the node decoder accepts every node the encoder can write: decodeShort and decodeFull fail only when an RLP split or a child decode failed — each error they return carries a callee's error, they raise none of their own (a short node's path may be empty: two keys that differ in their last nibble leave two leaves with nothing but the terminator; a branch value may be empty) — the reviewed shape checks live in decodeNode and decodeRef; " +
 		"R2.14 the node decoder and the embedded-child path agree: decodeRef hands decodeNode the remainder of the parent's buffer (the child's own bytes followed by its siblings), so decodeNode may treat bytes after the node's list as an error only if decodeRef trims what it passes to the child's size; " +
@@ -52,6 +53,7 @@ func c02(c *eng.Ctx, r *eng.Report) {
 	c02EmbeddedDecode(c, r)
 	c02DecoderRejectsOnlyRLP(c, r)
 	c02NodeCensus(c, r)
+	c02CascadeEveryChild(c, r)
 }
 
 func isNodePtr(t types.Type) (string, bool) {
@@ -1173,5 +1175,57 @@ func c02NodeCensus(c *eng.Ctx, r *eng.Report) {
 			}
 		}
 		r.Check(len(unknown) == 0, rule, "node-census:"+tn, "", fmt.Sprintf("%d fields, all reviewed", st.NumFields()), "storage/trie."+tn+" has field(s) ["+strings.Join(unknown, "; ")+"] beside the reviewed ones: state that lives next to the nodes is not covered by the root — a child counter kept by insert/delete but filled differently by the decoder makes a reloaded branch collapse (or not collapse) differently from the same trie built in memory, a memo of looked-up values answers for a key that an update path has since removed — so the root, Get and iteration can disagree, or depend on whether the trie went through the database")
+	}
+}
+
+// c02CascadeEveryChild: see R2.17.
+func c02CascadeEveryChild(c *eng.Ctx, r *eng.Report) {
+	const rule = "R2.17"
+	r.Min(rule, 2)
+	for _, name := range []string{"simplifyNode", "expandNode"} {
+		fn := c.Func(triePkg, name)
+		if !r.Anchor(fn != nil, rule, "trie."+name) {
+			continue
+		}
+		n, bad := 0, ""
+		for _, s := range eng.Sites(fn) {
+			if s.Common().StaticCallee() != fn {
+				continue
+			}
+			// the child argument comes out of an indexed entry of the branch
+			var child ssa.Value
+			for _, a := range s.Common().Args {
+				if _, isIface := a.Type().Underlying().(*types.Interface); isIface {
+					child = a
+				}
+			}
+			if child == nil || !strings.Contains(eng.Desc(child), "[") {
+				continue
+			}
+			n++
+			for _, cd := range eng.CondsAt(s.Instr) {
+				if m, isM := cd.Cmp(); isM {
+					if eng.IsNilConst(m.X) || eng.IsNilConst(m.Y) {
+						continue // child != nil
+					}
+					if strings.Contains(eng.Desc(m.X), "builtin:len(") || strings.Contains(eng.Desc(m.Y), "builtin:len(") {
+						continue // loop bound
+					}
+					if _, isK := eng.ConstInt(m.Y); isK {
+						continue // constant loop bound
+					}
+				}
+				if ex, isE := cd.V.(*ssa.Extract); isE {
+					if _, isTA := ex.Tuple.(*ssa.TypeAssert); isTA {
+						// which case of the type switch on the node itself we are in is fine; a test on the child is not
+						if ta := ex.Tuple.(*ssa.TypeAssert); ta.X == ssa.Value(fn.Params[len(fn.Params)-1]) || (len(fn.Params) >= 2 && ta.X == ssa.Value(fn.Params[1])) || ta.X == ssa.Value(fn.Params[0]) {
+							continue
+						}
+					}
+				}
+				bad = eng.Desc(cd.V) + " at " + c.Pos(s.Pos())
+			}
+		}
+		r.Check(bad == "" && n >= 1, rule, "cascade:"+name, c.Pos(fn.Pos()), fmt.Sprintf("%d recursive call(s) on branch children, each under child != nil only", n), name+" descends into a branch child only under "+bad+": children of the other kinds keep their live form — a small branch embedded directly in another branch stays a *fullNode inside the raw node handed to the database, and Trie.Commit panics in NodeDatabase.insert (unknown node type: *trie.fullNode) with the database lock held, although Hash() is well defined for that content")
 	}
 }
